@@ -50,6 +50,7 @@ type harness struct {
 	nReplays int64
 
 	// doc comments the corresponding clauses rest on (read from $VERIF_REPO)
+	docErrFunc         bool
 	docGradThrNoEffect bool
 	docDefaultConverge bool
 	docCmaLowestAcross bool
@@ -136,6 +137,7 @@ func (h *harness) runCase(cs *caseSpec) {
 	r := vrt.NewRand(cs.seed)
 	fuel := defaultFuel
 	led := newLedger(o, cs.ft, fuel)
+	led.gkind, led.gval = cs.gft.kind, cs.gft.val
 	bm := cs.m.build(o, r, led)
 	tr := &trace{led: led}
 	method := wrapMethod(bm.m, tr)
@@ -235,6 +237,8 @@ func (cs *caseSpec) pathClass() string {
 	switch {
 	case cs.ft.kind != faultNone:
 		return "objective-returns-" + faultValName(cs.ft.val)
+	case cs.gft.kind != faultNone:
+		return "gradient-returns-" + faultValName(cs.gft.val)
 	case cs.s.rec > 0 || cs.s.rec == -1:
 		return "recorder-error"
 	case cs.s.cbK > 0:
@@ -302,7 +306,7 @@ func (h *harness) violPath(cs *caseSpec, out *runResult, path, clause, detail st
 		rep["stats"] = fmt.Sprintf("%+v", out.res.Stats)
 	}
 	if out != nil && out.err != nil {
-		rep["err"] = out.err.Error()
+		rep["err"] = fmt.Sprint(out.err) // fmt survives a panicking Error method
 	}
 	h.c.Violation(sig, detail+" ["+cs.describe()+"]", rep)
 }
@@ -320,6 +324,15 @@ func (h *harness) judge(cs *caseSpec, led *ledger, bm *builtMethod, tr *trace, c
 		return
 	}
 	res, err := out.res, out.err
+	for _, e := range []error{out.err, tr.innerErr} {
+		if e == nil {
+			continue
+		}
+		if p := vrt.TryFast(func() { _ = e.Error() }); p != nil {
+			h.viol(cs, out, "returned-error-panics-in-Error()", fmt.Sprintf("the %T value returned by Minimize / Method.Status panics when asked for its message: %s (value %#v)", e, p.Msg, e))
+			break
+		}
+	}
 
 	// Early returns documented in Minimize: Recorder.Init error, Problem.Status
 	// error before the run, Recorder error on the InitIteration record.
@@ -678,6 +691,11 @@ func (h *harness) replaySerial(cs *caseSpec, led *ledger, bm *builtMethod, tr *t
 		h.viol(cs, out, "terminated-without-operation", fmt.Sprintf("PostIteration arrived after %d results but the method had sent only %d operations", eStar, len(tr.ops)))
 		return
 	}
+	if cs.m.local() && eStar >= 1 {
+		if !h.checkLocalStart(cs, led, tr, out) {
+			return
+		}
+	}
 	var nF, nG, nH, nMaj int
 	cbCalls := int64(1) // the call made before the run
 	recCalls := 1       // InitIteration
@@ -841,6 +859,75 @@ func (h *harness) replaySerial(cs *caseSpec, led *ledger, bm *builtMethod, tr *t
 			h.checkMethodStatus(cs, led, bm, tr, out)
 		}
 	}
+}
+
+func nonFinite(v float64) bool { return math.IsNaN(v) || math.IsInf(v, 0) }
+
+// checkLocalStart judges what a local method does with its starting location
+// (the driver did not stop the run at the initial evaluation). Documented:
+// ErrFunc "is returned when an initial function value is invalid. The error
+// state may be either +Inf or NaN"; ErrGrad "is returned when an initial
+// gradient is invalid. The error gradient may be either +-Inf or NaN". Any
+// other starting location, F = -Inf included, is a valid location: it is
+// announced as the first MajorIteration (where F = -Inf gives
+// FunctionNegativeInfinity). It reports whether the replay should go on.
+func (h *harness) checkLocalStart(cs *caseSpec, led *ledger, tr *trace, out *runResult) bool {
+	if !h.docErrFunc {
+		return true
+	}
+	o := cs.obj
+	x0h := hashBits(o.x0)
+	f0, known := 0.0, false
+	switch {
+	case cs.s.init > 0:
+		f0, known = o.f(o.x0), true
+	case led.haveFirstF && led.firstFx == x0h:
+		f0, known = led.firstF, true
+	}
+	if !known {
+		return true
+	}
+	badG, badIdx := false, -1
+	var badVal float64
+	if cs.m.usesGrad() && cs.s.init < 2 && led.haveFirstG && led.firstGx == x0h {
+		for i, v := range led.firstG {
+			if nonFinite(v) {
+				badG, badIdx, badVal = true, i, v
+				break
+			}
+		}
+	}
+	second := tr.ops[1]
+	path := "starting-location:F=" + faultValName(f0)
+	if !nonFinite(f0) || math.IsInf(f0, -1) {
+		if badG {
+			path = "starting-location:gradient=" + faultValName(badVal)
+		}
+	}
+	switch {
+	case math.IsNaN(f0) || math.IsInf(f0, 1):
+		ef, ok := tr.innerErr.(optimize.ErrFunc)
+		if second.op != optimize.MethodDone || tr.innerStatus != optimize.Failure || !ok || !(math.IsNaN(f0) && math.IsNaN(float64(ef)) || float64(ef) == f0) {
+			h.violPath(cs, out, path, "ErrFunc-not-reported", fmt.Sprintf("initial function value %v: expected MethodDone with Failure/ErrFunc(%v), method sent %s and reports %v/%#v", f0, f0, opName(second.op), tr.innerStatus, tr.innerErr))
+			return false
+		}
+	case badG:
+		eg, ok := tr.innerErr.(optimize.ErrGrad)
+		if second.op != optimize.MethodDone || tr.innerStatus != optimize.Failure || !ok || eg.Index != badIdx || !(math.IsNaN(badVal) && math.IsNaN(eg.Grad) || eg.Grad == badVal) {
+			h.violPath(cs, out, path, "ErrGrad-not-reported", fmt.Sprintf("initial gradient component %d is %v: expected MethodDone with Failure/ErrGrad, method sent %s and reports %v/%#v", badIdx, badVal, opName(second.op), tr.innerStatus, tr.innerErr))
+			return false
+		}
+	default:
+		if second.op != optimize.MajorIteration {
+			h.violPath(cs, out, path, "valid-starting-location-not-announced", fmt.Sprintf("initial function value %v with a finite gradient is a valid starting location (ErrFunc is documented for +Inf and NaN only), but the method sent %s instead of the first MajorIteration and reports %v/%#v; Result: X=%v F=%v status %v", f0, opName(second.op), tr.innerStatus, tr.innerErr, out.res.X, out.res.F, out.res.Status))
+			return false
+		}
+		if !sameFloats(second.x, o.x0) || math.Float64bits(second.f) != math.Float64bits(f0) {
+			h.violPath(cs, out, path, "first-MajorIteration-not-the-starting-location", fmt.Sprintf("first MajorIteration announces X=%v F=%v, the starting location is X=%v F=%v", second.x, second.f, o.x0, f0))
+			return false
+		}
+	}
+	return true
 }
 
 // checkMethodStatus judges the honesty of a status the method itself reported.
@@ -1040,7 +1127,7 @@ func (h *harness) checkQuadratic(cs *caseSpec, led *ledger, bm *builtMethod, out
 		h.maxGap[key] = ratio
 	}
 	if err != nil {
-		h.lsErrs[cs.m.name()+"/"+cs.m.lsName()+"/"+err.Error()]++
+		h.lsErrs[cs.m.name()+"/"+cs.m.lsName()+"/"+fmt.Sprint(err)]++
 	}
 	h.mu.Unlock()
 	if ratio > allowed {
